@@ -24,7 +24,18 @@ pub enum Probe {
     /// encode_with_fixed_block_size with a source reporting (channels, bps, rate), block size, threading
     StreamEncode { ch: usize, bps: usize, rate: usize, bs: usize, mt: bool, mem_source: bool },
     /// a source delivering samples outside the declared width in block `bad_block`
-    StreamBadSample { bps: usize, mt: bool, bad_block: usize, value: i64, bytes: bool },
+    StreamBadSample {
+        bps: usize,
+        mt: bool,
+        bad_block: usize,
+        value: i64,
+        bytes: bool,
+        /// length of the last block in inter-channel samples (0 = a full block) and channel of the bad sample
+        #[serde(default)]
+        last_len: usize,
+        #[serde(default)]
+        ch: usize,
+    },
     /// a source whose byte fills use `fill_bytes` bytes per sample while it declares `bps`
     StreamByteMismatch { bps: usize, fill_bytes: usize, mt: bool },
     /// a source filling more samples than the block size in one read
@@ -34,7 +45,16 @@ pub enum Probe {
     /// encode_fixed_size_frame with a StreamInfo that disagrees with the FrameBuf
     FrameInfoMismatch { fb_ch: usize, info_ch: usize, info_bps: usize, data_bps: usize },
     /// encode_fixed_size_frame with one sample outside the width
-    FrameBadSample { bps: usize, value: i64, ch: usize },
+    FrameBadSample {
+        bps: usize,
+        value: i64,
+        ch: usize,
+        /// inter-channel samples filled into the 64-sample buffer (0 = all 64), channel count
+        #[serde(default)]
+        filled: usize,
+        #[serde(default)]
+        channels: usize,
+    },
     StreamNew { rate: usize, ch: usize, bps: usize },
     StreamInfoNew { rate: usize, ch: usize, bps: usize },
     FrameBufNew { ch: usize, size: usize },
@@ -243,10 +263,16 @@ pub fn execute(p: &Probe) -> Outcome {
                     flacenc::encode_with_fixed_block_size(&c, src, *bs).map(|_| ()).map_err(|e| format!("{e:?}"))
                 }
             }
-            Probe::StreamBadSample { bps, mt, bad_block, value, bytes } => {
+            Probe::StreamBadSample { bps, mt, bad_block, value, bytes, last_len, ch } => {
                 let c = cfg(*mt);
                 let mut blocks: Vec<Vec<i32>> = (0..3).map(|_| ramp(64 * 2, *bps)).collect();
-                blocks[*bad_block][17] = *value as i32;
+                if *last_len > 0 {
+                    blocks[2].truncate(*last_len * 2);
+                }
+                // the bad sample sits at the last filled inter-channel sample of its block, in channel `ch`
+                let at = blocks[*bad_block].len() - 2 + (*ch).min(1);
+                let at = if *last_len == 0 && *ch == 0 { 17 } else { at };
+                blocks[*bad_block][at] = *value as i32;
                 let fill_bytes = if *bytes { (*bps + 7) / 8 } else { 0 };
                 let src = GridSource { ch: 2, bps: *bps, rate: 44100, blocks, fill_bytes, pos: 0 };
                 flacenc::encode_with_fixed_block_size(&c, src, 64).map(|_| ()).map_err(|e| format!("{e:?}"))
@@ -277,13 +303,17 @@ pub fn execute(p: &Probe) -> Outcome {
                 let info = StreamInfo::new(44100, *info_ch, *info_bps).map_err(|e| format!("setup: {e:?}"))?;
                 flacenc::encode_fixed_size_frame(&c, &fb, 0, &info).map(|_| ()).map_err(|e| format!("{e:?}"))
             }
-            Probe::FrameBadSample { bps, value, ch } => {
+            Probe::FrameBadSample { bps, value, ch, filled, channels } => {
                 let c = cfg(false);
-                let mut fb = FrameBuf::with_size(2, 64).map_err(|e| format!("{e:?}"))?;
-                let mut s = ramp(128, *bps);
-                s[2 * 31 + ch] = *value as i32;
+                let nch = if *channels == 0 { 2 } else { *channels };
+                let n = if *filled == 0 { 64 } else { *filled };
+                let mut fb = FrameBuf::with_size(nch, 64).map_err(|e| format!("{e:?}"))?;
+                // a full fill first, so that a partial fill leaves valid older samples behind it
+                fb.fill_interleaved(&ramp(64 * nch, *bps)).map_err(|e| format!("{e:?}"))?;
+                let mut s = ramp(n * nch, *bps);
+                s[nch * (n - 1) + (*ch).min(nch - 1)] = *value as i32;
                 fb.fill_interleaved(&s).map_err(|e| format!("{e:?}"))?;
-                let info = StreamInfo::new(44100, 2, *bps).map_err(|e| format!("{e:?}"))?;
+                let info = StreamInfo::new(44100, nch, *bps).map_err(|e| format!("{e:?}"))?;
                 flacenc::encode_fixed_size_frame(&c, &fb, 0, &info).map(|_| ()).map_err(|e| format!("{e:?}"))
             }
             Probe::StreamNew { rate, ch, bps } => Stream::new(*rate, *ch, *bps).map(|_| ()).map_err(|e| format!("{e:?}")),
@@ -459,9 +489,14 @@ pub fn probes() -> Vec<Probe> {
         for bps in [8usize, 12, 16, 20, 24] {
             for bad_block in 0..3usize {
                 for value in [1i64 << (bps - 1), -(1i64 << (bps - 1)) - 1, i32::MAX as i64, i32::MIN as i64] {
-                    v.push(Probe::StreamBadSample { bps, mt, bad_block, value, bytes: false });
-                    if bps % 8 != 0 && value.abs() < (1i64 << (8 * ((bps + 7) / 8) - 1)) {
-                        v.push(Probe::StreamBadSample { bps, mt, bad_block, value, bytes: true });
+                    for (last_len, ch) in [(0usize, 0usize), (0, 1), (1, 1), (10, 1), (33, 0), (63, 1)] {
+                        if last_len > 0 && bad_block != 2 {
+                            continue;
+                        }
+                        v.push(Probe::StreamBadSample { bps, mt, bad_block, value, bytes: false, last_len, ch });
+                        if bps % 8 != 0 && value.abs() < (1i64 << (8 * ((bps + 7) / 8) - 1)) {
+                            v.push(Probe::StreamBadSample { bps, mt, bad_block, value, bytes: true, last_len, ch });
+                        }
                     }
                 }
             }
@@ -488,8 +523,15 @@ pub fn probes() -> Vec<Probe> {
     }
     for bps in [8usize, 12, 16, 20, 24] {
         for value in [1i64 << (bps - 1), -(1i64 << (bps - 1)) - 1, i32::MAX as i64, i32::MIN as i64] {
-            for ch in 0..2 {
-                v.push(Probe::FrameBadSample { bps, value, ch });
+            for channels in [1usize, 2, 3, 8] {
+                for ch in [0usize, 1, channels - 1] {
+                    if ch >= channels {
+                        continue;
+                    }
+                    for filled in [0usize, 1, 2, 10, 33, 63] {
+                        v.push(Probe::FrameBadSample { bps, value, ch, filled, channels });
+                    }
+                }
             }
         }
     }
